@@ -55,7 +55,7 @@ theorem floor_div_half (s n : ℕ) (hn : 0 < n) : ⌊((s : ℚ) + 1 / 2) / n⌋ 
 theorem translate_dim (D : Dim ℚ) (hD : DimExact D) (c r : ℕ) :
     ∃ p : ℚ, pywrap Ops.rat ((D.cmax[c % D.n]! + D.cmin[c % D.n]!) / Ops.rat.ofInt 2 + D.cmin[r % D.n]!) D.len = p ∧
       0 ≤ p ∧ p ≤ D.len ∧
-      Ops.rat.toInt (p / (D.len / Ops.rat.ofInt D.n)) = (((c % D.n + r % D.n) % D.n : ℕ) : ℤ) := by
+      min (Ops.rat.toInt (p / (D.len / Ops.rat.ofInt D.n))) ((D.n : ℤ) - 1) = (((c % D.n + r % D.n) % D.n : ℕ) : ℤ) := by
   obtain ⟨hn, side, hs, hlen, hmin, hmax⟩ := hD
   have ha : c % D.n < D.n := Nat.mod_lt _ hn
   have ho : r % D.n < D.n := Nat.mod_lt _ hn
@@ -87,6 +87,8 @@ theorem translate_dim (D : Dim ℚ) (hD : DimExact D) (c r : ℕ) :
         = (((a + o) % D.n : ℕ) : ℚ) + 1 / 2 := by
       rw [hlen]; simp only [rat_ofInt, Int.cast_natCast]; field_simp
     rw [hq, rat_toInt, trunc_nonneg (by positivity), floor_half]
+    have : (((a + o) % D.n : ℕ) : ℤ) + 1 ≤ (D.n : ℤ) := by exact_mod_cast hrem
+    omega
 
 /-- the list index of the cell at offset `r` from cell `c` -/
 def addIdx : List Nat → Nat → Nat → Nat
